@@ -5,4 +5,16 @@ claimed = {
  "C11": ("call-graph must-reach / must-not-reach (VTA) + guard extraction",
          "Decides that every line entry point reaches the open-polyline machine and extractor and cannot reach the polygon machine that closes paths; necessary for 'lines are never closed up / two-point segments are not dropped'. Crossing logic is not decided.", "DESIGN.md §4 C11", NOTE),
 }
+claimed.update({
+ "C01": ("decision-table extraction (abstract exploration of SSA) + ring-walk polarity + SCCP dead-mechanism",
+         "Decides that the edge-contribution predicate equals the property's set-theoretic table on every cell of the code-derived partition (4 clip types x 4 fill rules x polytype x windCount x windCount2), that the open-path boundary test agrees with it, that every ring walk visits the whole ring and that no sweep/repair call is constant-dead. Necessary conditions of C01; the sweep geometry is not decided.", "DESIGN.md §4 C01", NOTE),
+ "C07": ("SSA dataflow over every D entry point (precision provenance, scale-in/scale-out pairing, rounding, sibling call skeleton)",
+         "Decides for all D entry points (enumerated by type) that the caller's precision is range-checked and unmodified, that inputs are quantised by the scale-in helpers with this call's 10^p, results are divided by the same 10^p, rectangles use the path quantiser and the wrapper calls exactly its 64-bit sibling's routines. Bit-exactness of the decimal round trip is not decided.", "DESIGN.md §4 C07", NOTE),
+ "C09": ("decision-table extraction over SSA",
+         "Decides that the open-edge contribution predicate equals the property's coverage table for every fill rule, clip type and winding cell and that open paths are cut only at own-set boundary edges. Cut positions are not decided.", "DESIGN.md §4 C09", NOTE),
+ "C18": ("inclusion-based points-to + write-effect classification, global-variable discipline, forbidden-construct scan",
+         "An effect argument for the whole property: no package-level mutable state, no write through caller-supplied input memory, no goroutines/sync/unsafe in the package or the reachable dependency code, so concurrent calls on distinct objects share only read-only memory. Trusts the standard library and caller-supplied callbacks.", "DESIGN.md §4 C18", NOTE),
+ "C19": ("decision-table identities (no external oracle) + wrapper wiring extraction",
+         "Decides the edge-level forms of the four set identities inside the extracted contribution table for every fill rule and cell, and that each named wrapper passes the clip type its name states with subject/clip/fill rule in order. Area bounds are not decided.", "DESIGN.md §4 C19", NOTE),
+})
 not_applicable = {}
